@@ -165,6 +165,7 @@ Next == \E i \in Objs :
           \/ \E j \in Objs : Copy(i, j)
 
 Spec == Init /\ [][Next]_vars
+Sym == Permutations(Objs)      \* the object identifiers are interchangeable (design model only)
 
 \* ---------------------------------------------------------------- the property
 ForAll(P(_, _)) == \A i \in Live : LET o == Obs(objs[i].o) IN Wf(o) => P(objs[i].st, o)
@@ -185,6 +186,14 @@ InvCdfMonotone    == ForAll(LAMBDA st, o : CdfMonotone(o))
 InvMeanMatches    == ForAll(MeanMatches)
 InvLookup         == ForAll(LAMBDA st, o : Lookup(o))
 InvCumulative     == ForAll(LAMBDA st, o : CumulativeConsistent(o))
+
+\* all of the above at once, the observation expanded once per object (design model runs)
+AllObsInv ==
+  \A i \in Live :
+    LET st == objs[i].st  o == Obs(objs[i].o) IN
+    /\ Wf(o) /\ Count(st, o) /\ BoundsMonotone(o) /\ ValuesStrict(o) /\ ValueInOwnClass(o)
+    /\ ProbsNonNeg(o) /\ ProbsSumOne(o) /\ EqualMass(st, o) /\ DomainInside(st, o) /\ DomainMass(o)
+    /\ MassMatchesCdf(o) /\ CdfMonotone(o) /\ MeanMatches(st, o) /\ Lookup(o) /\ CumulativeConsistent(o)
 
 \* a refused call changes nothing (action property)
 RefusalKeeps == [][out' = "raise" => \A i \in Objs : objs'[i] = objs[i]]_vars
